@@ -312,6 +312,10 @@ def same_value(a, b):
         return False  # distinct abstract objects are distinct (no __eq__ override modelled)
     if isinstance(a, Cls) and isinstance(b, Cls):
         return a.ci is b.ci
+    if isinstance(a, Builtin) and isinstance(b, Builtin):
+        return a.name == b.name
+    if (isinstance(a, Builtin) and isinstance(b, Cls)) or (isinstance(a, Cls) and isinstance(b, Builtin)):
+        return False
     if isinstance(a, (Const,)) and isinstance(b, (Obj, Cls, Lst, Dct, Tup)):
         return False
     if isinstance(b, (Const,)) and isinstance(a, (Obj, Cls, Lst, Dct, Tup)):
@@ -925,6 +929,8 @@ class Interp:
                 return
         if isinstance(base, Obj):
             base.attrs[attr] = v
+        elif isinstance(base, Cls):
+            self.heap[("cls:" + base.ci.qualname, attr)] = v
         else:
             self.heap[(show(base), attr)] = v
         self.emit("store", st, target=Term("attr", base, attr), value=v, base=base, attr=attr, setter=None)
@@ -1002,6 +1008,14 @@ class Interp:
                 return Builtin("type")
             if attr == "__dict__":
                 return Term("view", self.class_dict(ci), "dict")
+            if attr == "__mro__":
+                return Tup([Cls(c) for c in ci.mro] + [Builtin("object")])
+            if attr == "__bases__":
+                return Tup([Cls(c) for c in ci.bases] + ([Builtin("object")] if not ci.bases else []))
+            for c in ci.mro:
+                hv = self.heap.get(("cls:" + c.qualname, attr))
+                if hv is not None:
+                    return hv
             m = ci.find_method(attr)
             if m is not None:
                 return Fn(m, base if m.kind == "classmethod" else None)
@@ -1489,6 +1503,8 @@ class Interp:
             r = self.call_builtin(callee.name, args, kwargs, node, frame)
             if r is not NotImplemented:
                 return r
+        if isinstance(callee, Term) and callee.op == "attr" and isinstance(callee.args[0], Cls) and callee.args[1] == "mro" and not args:
+            return Lst([Cls(c) for c in callee.args[0].ci.mro] + [Builtin("object")])
         if isinstance(callee, Term) and callee.op == "attr":
             r = self.call_method_model(callee.args[0], callee.args[1], args, kwargs, node)
             if r is not NotImplemented:
@@ -1546,6 +1562,14 @@ class Interp:
             return t
         if name == "cast" and len(args) == 2:
             return args[1]
+        if name == "issubclass" and len(args) == 2:
+            a, b = args
+            if isinstance(a, Builtin) and isinstance(b, Cls):
+                return Const(False)
+            if isinstance(a, Cls) and isinstance(b, Cls):
+                return Const(b.ci in a.ci.mro)
+            if isinstance(a, Cls) and isinstance(b, Builtin) and b.name == "object":
+                return Const(True)
         if name == "vars" and len(args) == 1:
             if isinstance(args[0], Obj):
                 return Term("view", obj_dict(args[0]), "dict")
